@@ -30,6 +30,8 @@ VARIABLES tr, written, killed, dropped, merged, expect, exOK, chg, anc, origin,
 cvars == <<tr, written, killed, dropped, merged, expect, exOK, chg, anc, origin, win, tags>>
 
 Inside(p) == Len(p) >= 2 /\ p[1] = ROOT
+InsideOf(t)  == Drop(t, {p \in DOMAIN t : p[1] # ROOT})      \* the sync root and what is below it
+OutsideOf(t) == Drop(t, {p \in DOMAIN t : p[1] = ROOT})      \* everything else in the account
 Live      == written \ (killed \cup dropped)
 CopiesAll(trees, v) == Copies(trees[1], v) + Copies(trees[2], v)
 \* copies that can actually be read: bad = set of <<side, path, version>> a provider reports as unreadable (corrupt)
@@ -139,15 +141,22 @@ ContentOK(c) == c \in written \cup merged
 InsideOK(p) == Inside(p)
 
 \* C01 at quiet: same paths, types, contents, '.conflicted' files being the only permitted one-sided extras
-Converged(trees) ==
+Converged(whole) ==
+  LET trees == <<InsideOf(whole[1]), InsideOf(whole[2])>> IN
   /\ StripConflicted(trees[1]) = StripConflicted(trees[2])
   /\ \A s \in Sides : \A p \in ConflictedPaths(trees[s]) : Has(trees[Other(s)], p) \/ trees[s][p] # DIR
 \* C02 at quiet
 NoLoss(trees, bad) == \A v \in Live : CopiesGood(trees, v, bad) >= 1
 NoInvented(trees) == \A s \in Sides : Cells(trees[s]) \subseteq written \cup merged \cup {DIR}
 \* C03 / C04 at quiet: both sides show exactly base + both sides' changes, nothing conflicted
-AsExpected(trees) == trees[1] = expect /\ trees[2] = expect
+AsExpected(trees) == InsideOf(trees[1]) = InsideOf(expect) /\ InsideOf(trees[2]) = InsideOf(expect)
+\* after a restart without a usable cursor the engine falls back to a full walk: everything created or modified
+\* reaches the other side; deletions made meanwhile are not promised
+Covers(t, e) == \A p \in DOMAIN InsideOf(e) : Has(t, p) /\ t[p] = e[p]
+CoversExpected(trees) == Covers(trees[1], expect) /\ Covers(trees[2], expect)
 NoArtefacts(trees) == ConflictedPaths(trees[1]) = {} /\ ConflictedPaths(trees[2]) = {}
+\* C12: the engine never changes anything outside the roots (compared with what the users left there)
+OutsideUntouched(trees, userTrees) == \A s \in Sides : OutsideOf(trees[s]) = OutsideOf(userTrees[s])
 
 \* quiet and equal: a new unsynced window begins
 WindowReset == chg' = <<{}, {}>> /\ anc' = <<{}, {}>> /\ win' = EmptyWin
